@@ -394,7 +394,7 @@ fn parse_sym(s: &str) -> Option<Sym> {
     let p: Vec<&str> = s.split(':').collect();
     match p.as_slice() {
         ["RDY", id] => Some(Sym::Rdy(u32::from_str_radix(id, 16).ok()?)),
-        ["CR", sid, alg, cwnd, mss] => Some(Sym::Cr(u32::from_str_radix(sid, 16).ok()?, if *alg == "-" { None } else { Some(alg.to_string()) },
+        ["CR", sid, alg, cwnd, mss] => Some(Sym::Cr(u32::from_str_radix(sid, 16).ok()?, if *alg == "-" { None } else { Some(unescape_name(alg)) },
             u32::from_str_radix(cwnd, 16).ok()?, u32::from_str_radix(mss, 16).ok()?)),
         ["MS", sid, u, nf, fs] => {
             let uref = if let Some(k) = u.strip_prefix('p') { UidRef::P(k.parse().ok()?) } else { UidRef::X(u32::from_str_radix(u.strip_prefix('x')?, 16).ok()?) };
@@ -599,6 +599,19 @@ pub fn colliding_addrs() -> &'static [u64; 6] {
     })
 }
 
+/// `~xx` in an algorithm name of a case line stands for the byte xx (white space and other
+/// characters the line format cannot carry)
+pub fn unescape_name(s: &str) -> String {
+    let b = s.as_bytes(); let mut out = Vec::new(); let mut i = 0;
+    while i < b.len() {
+        if b[i] == b'~' && i + 2 < b.len() + 0 && i + 2 <= b.len() - 1 + 0 {
+            if let Ok(v) = u8::from_str_radix(&s[i + 1..i + 3], 16) { out.push(v); i += 3; continue; }
+        }
+        out.push(b[i]); i += 1;
+    }
+    String::from_utf8_lossy(&out).into_owned()
+}
+
 // ------------------------------------------------------------------ generators
 
 fn gen_fields(r: &mut Rng, n: usize) -> String {
@@ -685,7 +698,8 @@ pub fn gen_case(r: &mut Rng, adversarial: bool, faults: bool) -> String {
     let nev = r.range(2, 16);
     let addrs: Vec<u64> = if adversarial && r.chance(1, 3) { colliding_addrs().to_vec() } else { vec![1u64, 2, 3] };
     let sids = [1u32, 2, 3, 0x10];
-    let algnames = ["-", "-", "reno", "renoX", LONG63, LONG63, "cubic", "dflt", "ren", "renoXY", "zzz", "", "renoreno0123456789012345678901234567890123456789012345678901234", &LONG63[..62]];
+    let algnames = ["-", "-", "reno", "renoX", LONG63, LONG63, "cubic", "dflt", "ren", "renoXY", "zzz", "", "renoreno0123456789012345678901234567890123456789012345678901234", &LONG63[..62],
+        "reno~0a", "reno~20", "renoX~09", "~20reno", "dflt~0d~0a", "Reno", "reno~00x"];
     let mut evs = vec![];
     let mut live: Vec<(u64, u32)> = vec![];
     let mut sends_guess = 0usize;
